@@ -93,7 +93,8 @@ PROBES = [
     'probe:shift_ge_width', 'probe:minint_div_neg1', 'probe:map_delete_general', 'probe:value_receiver',
     'probe:array_eq', 'probe:map_range_key_only', 'probe:field_slice_syntax', 'probe:global_int64_init',
     'probe:loopvar_closure', 'probe:nil_map_zero_value', 'probe:range_invalid_utf8', 'probe:fallthrough',
-    'probe:eval_order',
+    'probe:eval_order', 'probe:global_uint64_init', 'probe:iface_to_iface_assign', 'probe:nested_closure_capture', 'probe:string_order_invalid_utf8',
+    'probe:assert_fail_string_zero',
 ]
 
 
@@ -814,7 +815,7 @@ class Gen(object):
             src = self.pick(INT_NAMES)
             self.feat.add('conv_int_float')
             a = self.nonconst(env, src, self.expr(env, src, 2))
-            return S('%s = %s({0} %% %s(1000)) / %s(8)' % (v, t, src, t), [a])
+            return S('%s = %s({0} %% %s(100)) / %s(8)' % (v, t, src, t), [a])
         if t == 'bool':
             return S('%s = {0}' % v, [self.expr(env, 'bool')])
         if t == 'string':
@@ -1219,10 +1220,13 @@ class Gen(object):
             fe.add(t2, 'c')
             fe.add(t2, 'step')
             upd = self.nonconst(fe, t2, self.expr(fe, t2, 2))
-            st.append(S(['%s := func(step %s) func() %s {' % (mk, t2, t2), '\tvar c %s' % t2, '\treturn func() %s {' % t2,
-                         '\t\tc = {0}', '\t\tc += step', '\t\treturn c', '\t}', '}',
-                         '%s := %s({1})' % (a, mk), '%s := %s({2})' % (b, mk), '_, _ = %s, %s' % (a, b)],
-                        [upd, self.expr(env, t2, 1), self.expr(env, t2, 1)], keep=True))
+            # (a func literal nested in a func literal and capturing the outer literal's locals makes the
+            #  Wa back end abort: the factory is a top-level function in the safe stream, see FINDINGS)
+            mk = 'g%d%s' % (grp.idx, mk)
+            grp.decls.append((mk, 'func %s(step %s) func() %s {\n\tvar c %s\n\treturn func() %s {\n\t\tc = %s\n\t\tc += step\n\t\treturn c\n\t}\n}'
+                              % (mk, t2, t2, t2, t2, upd.render())))
+            st.append(S(['%s := %s({0})' % (a, mk), '%s := %s({1})' % (b, mk), '_, _ = %s, %s' % (a, b)],
+                        [self.expr(env, t2, 1), self.expr(env, t2, 1)], keep=True))
             for _ in range(self.rng.randint(2, 5)):
                 w = self.pick([a, b])
                 r = self.fresh('r')
@@ -1238,7 +1242,7 @@ class Gen(object):
             fe.add(t3, 'x', writable=False)
             body = self.expr(fe, t3, 2)
             tot = self.pick(env.write[t3])
-            st.append(S(['var %s []func(%s) %s' % (fs, t3, t3), 'for i := 0; i < %d; i++ {' % n, '\tj := %s(i)' % t3,
+            st.append(S(['var %s []func(%s) %s' % (fs, t3, t3), 'for i := 0; i < %d; i++ {' % n, '\tj := %s(i)' % t3, '\t_ = j',
                          '\t%s = append(%s, func(x %s) %s {' % (fs, fs, t3, t3), '\t\treturn {0}', '\t})', '}',
                          'for k, f := range %s {' % fs, '\tv := f(%s(k) + {1})' % t3, '\tprintln("%s", k, v)' % fs,
                          '\t%s ^= v' % tot, '}'], [body, self.expr(env, t3, 1)]))
@@ -1647,10 +1651,14 @@ class Gen(object):
             elif op == 'cmp':
                 self.feat.add('compare_string')
                 self.feat.add('str_compare')
+                # ordering only between valid UTF-8 strings (Wa compares rune-wise and stops at an invalid
+                # byte: see FINDINGS); slices may split a sequence and are compared with == / != only
+                o = self.str_expr(senv, 2)
+                st.append(S('println("cmp", %s == {0}, %s < {0}, %s >= {0}, %s != {0})' % (s, s, s, s), [o]))
                 self.slices_ok = True
                 o = self.str_expr(senv, 2)
                 self.slices_ok = False
-                st.append(S('println("cmp", %s == {0}, %s < {0}, %s >= {0}, %s != {0})' % (s, s, s, s), [o]))
+                st.append(S('println("cmpeq", %s == {0}, %s != {0})' % (s, s), [o]))
             elif op == 'range':
                 self.feat.add('str_range')
                 h = self.fresh('h')
@@ -1923,7 +1931,8 @@ class Gen(object):
             n, z = self.fresh('nm'), self.fresh('z')
             k = self.rng.randrange(len(order))
             tk = impls[order[k]][0]
-            st.append(S(['var %s %s = %s[%d]' % (n, N, sh, k), 'var %s %s' % (z, I), 'println("nil", %s == nil, %s != nil)' % (z, n),
+            # (Wa rejects the implicit interface-to-interface conversion `var n Namer = shape`: see FINDINGS)
+            st.append(S(['var %s %s = %s[%d].(%s)' % (n, N, sh, k, N), 'var %s %s' % (z, I), 'println("nil", %s == nil, %s != nil)' % (z, n),
                          '%s = %s.(%s)' % (z, n, I), 'println("conv", %s.Name(), %s == nil, %s.(*%s).Area({0}), %s == %s[%d])' % (n, z, z, tk, z, sh, k)],
                         [self.expr(env, rt, 1)]))
         if self.chance(0.8):
@@ -2030,6 +2039,11 @@ class Gen(object):
             v = self.pick([77, 64, 1000000, -77, 32, -33])
             grp.decls.append((gn, 'var %s int64 = %d' % (gn, v)))
             st.append(S('println("global", %s)' % gn))
+        elif w == 'global_uint64_init':
+            gn = P.upper() + 'GlobU'
+            v = self.pick([1 << 63, (1 << 64) - 1, (1 << 63) + 12345])
+            grp.decls.append((gn, 'var %s uint64 = %d\n\nvar %sArr = [2]uint64{%d, 1}' % (gn, v, gn, v)))
+            st.append(S('println("globalu", %s, %sArr[0], %sArr[1])' % (gn, gn, gn)))
         elif w == 'loopvar_closure':
             st.append(S(['var pfs []func() int', 'for i := 0; i < 3; i++ {', '\tpfs = append(pfs, func() int { return i })', '}',
                          'for _, f := range pfs {', '\tprintln("loopvar", f())', '}']))
@@ -2042,6 +2056,18 @@ class Gen(object):
                         [self.nonconst(env, 'uint8', self.leaf(env, 'uint8', True))]))
         elif w == 'eval_order':
             st.append(S(['pcnt := 0', 'pinc := func(n int) int {', '\tpcnt += n', '\treturn pcnt', '}', 'pinc(2)', 'println("evalorder", pcnt, pinc(1))']))
+        elif w == 'assert_fail_string_zero':
+            st.append(S(['var pe interface{} = {0}', 'ps, pok := pe.(string)', 'println("assertstr", len(ps), pok, ps == "")'], [self.nonconst(env, 'uint8', self.leaf(env, 'uint8', True))]))
+        elif w == 'iface_to_iface_assign':
+            tn = P.upper()
+            grp.decls.append((tn + 'ii', 'type %sBig interface {\n\tA() int32\n\tB() int32\n}\n\ntype %sSmall interface {\n\tB() int32\n}\n\n'
+                              'type %sImp struct {\n\tv int32\n}\n\nfunc (p *%sImp) A() int32 {\n\treturn p.v\n}\n\nfunc (p *%sImp) B() int32 {\n\treturn p.v + 1\n}' % (tn, tn, tn, tn, tn)))
+            st.append(S(['var pbig %sBig = &%sImp{4}' % (tn, tn), 'var psmall %sSmall = pbig' % tn, 'println("ifaceassign", psmall.B())']))
+        elif w == 'nested_closure_capture':
+            st.append(S(['pmk := func(step int32) func() int32 {', '\tvar c int32', '\treturn func() int32 {', '\t\tc += step', '\t\treturn c', '\t}', '}',
+                         'pa := pmk(2)', 'pr1 := pa()', 'pr2 := pa()', 'println("nestedclosure", pr1, pr2)']))
+        elif w == 'string_order_invalid_utf8':
+            st.append(S(['pso := "h\u00e9llo"', 'for k := 0; k < len(pso); k++ {', '\tprintln("strorder", k, pso < pso[k:], pso[k:] < pso, pso == pso[k:])', '}']))
         else:
             raise ValueError(which)
 
@@ -2086,7 +2112,11 @@ def _g_globals(self, grp, env):
     consts = []
     for t in self.rng.sample([x for x in INT_NAMES if x != 'int64'] + ['string'], 3):
         n = '%sv%s' % (P, SHORT[t])
-        decl.append('var %s %s = %s' % (n, t, self.lit(t).render()))
+        init = self.lit(t)
+        if t == 'uint64':
+            # a package-level uint64 initialised with a constant >= 2^63 reads as 0 in Wa (see FINDINGS)
+            init = self.lit(t, self.rng.randint(0, (1 << 63) - 1))
+        decl.append('var %s %s = %s' % (n, t, init.render()))
         genv.add(t, n)
     n64 = P + 'vi64'
     decl.append('var %s int64' % n64)
@@ -2185,3 +2215,290 @@ def gen_program(rng, size='small', features=None, stream='safe'):
         grp.features = set(g.feat)
         prog.stmt_groups.append(grp)
     return prog
+
+
+# ----------------------------------------------------------------------------------------------
+# shrinking (delta debugging).  Works in place on a deep copy with undo; `still_fails(program)`
+# is the caller's oracle (re-render, run both sides, compare) and must return True iff the SAME
+# kind of failure is still present.  A candidate that no longer compiles simply is not a failure.
+
+def _ddmin_list(lst, droppable, test, floor=0):
+    """remove as many droppable elements of lst (in place) as possible while test() stays True."""
+    cand = [x for x in lst if droppable(x)]
+    if not cand:
+        return
+    n = 1            # first try removing everything
+    while cand:
+        chunk = max(1, (len(cand) + n - 1) // n)
+        removed_any = False
+        i = 0
+        while i < len(cand):
+            sub = cand[i:i + chunk]
+            ids = set(id(x) for x in sub)
+            saved = list(lst)
+            lst[:] = [x for x in lst if id(x) not in ids]
+            if len(lst) >= floor and test():
+                cand = [x for x in cand if id(x) not in ids]
+                removed_any = True
+            else:
+                lst[:] = saved
+                i += chunk
+        if chunk == 1:
+            if not removed_any:
+                break
+        else:
+            n = min(len(cand), n * 2) if cand else 1
+            if n < 2:
+                n = 2
+
+
+def _walk_stmts(stmts):
+    for s in stmts:
+        yield s
+        for b in s.blocks:
+            for x in _walk_stmts(b):
+                yield x
+
+
+def _simple_lit(ty):
+    if ty in INT_T:
+        return [E(ty, '%s(1)' % ty, const=True), E(ty, '%s(0)' % ty, const=True)]
+    if ty == 'int':
+        return [E(ty, '1', const=True, bound=1)]
+    if ty == 'uint':
+        return [E(ty, 'uint(1)', const=True, bound=1)]
+    if ty in FLOAT_T:
+        return [E(ty, '%s(1.0)' % ty, const=True)]
+    if ty == 'bool':
+        return [E(ty, 'true', const=True), E(ty, 'false', const=True)]
+    if ty == 'string':
+        return [E(ty, '"a"', const=True)]
+    return []
+
+
+def _expr_sites(e, holder, key):
+    """yield (holder, key, node) for every node; holder[key] is where the node is stored."""
+    yield holder, key, e
+    for i, k in enumerate(e.kids):
+        for x in _expr_sites(k, e.kids, i):
+            yield x
+
+
+def shrink(program, still_fails, max_tests=250):
+    """Delta debugging: drop statement groups, then statements (outer blocks first), then replace
+    sub-expressions by a same-typed child or a literal, then drop unreferenced pool variables.
+    Returns a new Program (the argument is not modified)."""
+    prog = copy.deepcopy(program)
+    budget = [max_tests]
+
+    def test():
+        if budget[0] <= 0:
+            return False
+        budget[0] -= 1
+        try:
+            return bool(still_fails(prog))
+        except Exception:
+            return False
+
+    # 1) groups
+    _ddmin_list(prog.stmt_groups, lambda g: True, test)
+    # 1b) top-level declarations of the surviving groups that nothing needs any more
+    def drop_decls():
+        for g in prog.stmt_groups:
+            if g.decls and budget[0] > 0:
+                _ddmin_list(g.decls, lambda d: True, test)
+    # 2) statements, breadth first over nesting depth
+    level = [g.stmts for g in prog.stmt_groups]
+    while level and budget[0] > 0:
+        nxt = []
+        for lst in level:
+            _ddmin_list(lst, lambda s: not s.keep, test)
+            for s in lst:
+                nxt.extend(b for b in s.blocks if b)
+        level = nxt
+    drop_decls()
+    # 3) expressions
+    changed = True
+    rounds = 0
+    while changed and budget[0] > 0 and rounds < 3:
+        changed = False
+        rounds += 1
+        for g in prog.stmt_groups:
+            for s in _walk_stmts(g.stmts):
+                for i in range(len(s.exprs)):
+                    progress = True
+                    while progress and budget[0] > 0:
+                        progress = False
+                        for holder, key, node in list(_expr_sites(s.exprs[i], s.exprs, i)):
+                            if node.atomic or not node.kids:
+                                continue
+                            cands = [k for k in node.kids if k.ty == node.ty and not k.atomic] + _simple_lit(node.ty)
+                            for c in cands:
+                                holder[key] = c
+                                if test():
+                                    progress = changed = True
+                                    break
+                                holder[key] = node
+                            if progress:
+                                break
+    # 4) pool variables nobody references any more
+    if budget[0] > 0:
+        body = '\n'.join('\n'.join(g.render(1)) + '\n'.join(t for _, t in g.decls) for g in prog.stmt_groups)
+        keep = [p for p in prog.pool if re.search(r'\b%s\b' % re.escape(p[0]), body)]
+        if len(keep) < len(prog.pool):
+            saved = prog.pool
+            prog.pool = keep
+            if not test():
+                prog.pool = saved
+    return prog
+
+
+# ----------------------------------------------------------------------------------------------
+# idioms: small classic Go semantics checks with random operands plugged in
+
+IDIOM_FEATURES = [
+    'idiom_range_array_copy', 'idiom_range_len_once', 'idiom_method_value', 'idiom_struct_with_slice_map',
+    'idiom_map_of_slices', 'idiom_nested_literals', 'idiom_named_basic_types', 'idiom_recursive_closure',
+    'idiom_variadic_spread', 'idiom_call_forwarding', 'idiom_shortcircuit_calls', 'idiom_shadowing',
+    'idiom_ptr_escape', 'idiom_swap_index', 'idiom_iota', 'idiom_untyped_const', 'idiom_anon_struct',
+    'idiom_embedded_ptr', 'idiom_assert_fail_zero', 'idiom_copy_string_bytes', 'idiom_string_build_runes',
+    'idiom_ptr_to_ptr', 'idiom_array_of_struct_range', 'idiom_multi_case_typeswitch', 'idiom_closure_over_field',
+    'idiom_linked_list', 'idiom_matrix_slices', 'idiom_bytes_compare',
+]
+FEATURES.extend(IDIOM_FEATURES)
+
+
+def _g_idioms(self, grp, env):
+    P = 'G%d' % grp.idx
+    p = 'g%d' % grp.idx
+    st = grp.stmts
+    n = {'small': 3, 'medium': 5, 'large': 8}[self.size]
+    t = self.scalar_type(floats=False)
+    T = lambda d=1: self.expr(env, t, d)
+    pool_t = self.pick(env.write[t])
+    for name in self.rng.sample(IDIOM_FEATURES, n):
+        self.feat.add(name)
+        k = name[6:]
+        u = self.fresh('q')
+        if k == 'range_array_copy':
+            # range over an array evaluates (copies) the array once; over a slice it sees the writes
+            st.append(S(['%sa := [4]%s{{0}, {1}, {2}, {3}}' % (u, t), '%ss := %sa[:]' % (u, u), 'var %sx, %sy %s' % (u, u, t),
+                         'for i, v := range %sa {' % u, '\t%sa[3-i] += %s(10)' % (u, t), '\t%sx = %sx*%s(3) + v' % (u, u, t), '}',
+                         'for i, v := range %ss {' % u, '\t%ss[3-i] += %s(10)' % (u, t), '\t%sy = %sy*%s(3) + v' % (u, u, t), '}',
+                         'println("rangecopy", %sx, %sy, %sa[0], %sa[3])' % (u, u, u, u)], [T(), T(), T(), T()]))
+        elif k == 'range_len_once':
+            st.append(S(['%ss := []%s{{0}, {1}}' % (u, t), '%sc := 0' % u, 'for i := range %ss {' % u, '\t%ss = append(%ss, %s(i) + {2})' % (u, u, t), '\t%sc++' % u, '}',
+                         'println("rangelen", %sc, len(%ss), %ss[len(%ss)-1])' % (u, u, u, u)], [T(), T(), T()]))
+        elif k == 'method_value':
+            grp.decls.append((P + 'MV', 'type %sMV struct {\n\tv %s\n}\n\nfunc (m *%sMV) Add(d %s) %s {\n\tm.v += d\n\treturn m.v\n}' % (P, t, P, t, t)))
+            st.append(S(['%sm := &%sMV{{0}}' % (u, P), '%sf := %sm.Add' % (u, u), '%sr1 := %sf({1})' % (u, u), '%sm.v ^= {2}' % u, '%sr2 := %sf({1})' % (u, u),
+                         'println("methodvalue", %sr1, %sr2, %sm.v)' % (u, u, u)], [T(), T(), T()]))
+        elif k == 'struct_with_slice_map':
+            grp.decls.append((P + 'SM', 'type %sSl []%s\n\ntype %sMp map[string]%s\n\ntype %sSM struct {\n\txs %sSl\n\tm %sMp\n\tn int\n}\n\n'
+                              'func (s *%sSM) Put(k string, v %s) {\n\ts.xs = append(s.xs, v)\n\ts.m[k] += v\n\ts.n++\n}' % (P, t, P, t, P, P, P, P, t)))
+            st.append(S(['%s := %sSM{m: %sMp{}}' % (u, P, P), '%s.Put("a", {0})' % u, '%s.Put("b", {1})' % u, '%s.Put("a", {2})' % u, '%sc := %s' % (u, u),
+                         '%sc.Put("b", {0})' % u, '%sc.xs[0]++' % u,
+                         'println("slicemap", %s.n, %sc.n, len(%s.xs), len(%sc.xs), %s.xs[0], %s.m["a"], %s.m["b"], len(%s.m))' % (u, u, u, u, u, u, u, u)], [T(), T(), T()]))
+        elif k == 'map_of_slices':
+            st.append(S(['%s := map[string][]%s{}' % (u, t), '%s["x"] = append(%s["x"], {0})' % (u, u), '%s["x"] = append(%s["x"], {1})' % (u, u), '%s["y"] = append(%s["y"], {2})' % (u, u),
+                         '%s["x"][0] += {2}' % u, 'println("mapslices", len(%s), len(%s["x"]), len(%s["z"]), %s["x"][0], %s["x"][1], %s["y"][0])' % (u, u, u, u, u, u)], [T(), T(), T()]))
+        elif k == 'nested_literals':
+            grp.decls.append((P + 'NL', 'type %sPt struct {\n\tx, y %s\n}' % (P, t)))
+            st.append(S(['%sa := []%sPt{{{0}, {1}}, {x: {2}}}' % (u, P),
+                         '%sm := map[string]%sPt{"k": {{1}, {2}}}' % (u, P), '%sp := []*%sPt{{{0}, {2}}, &%sa[1]}' % (u, P, u),
+                         '%sr := [...]%s{{0}, {1}, {2}}' % (u, t), '%sp[1].y = {0}' % u,
+                         'println("literals", %sa[0].y, %sa[1].x, %sa[1].y, %sm["k"].x, %sm["q"].y, %sp[0].y, len(%sr), %sr[2])' % (u, u, u, u, u, u, u, u)], [T(), T(), T()]))
+        elif k == 'named_basic_types':
+            bt = t
+            grp.decls.append((P + 'NB', 'type %sNum %s\n\ntype %sStr string\n\nfunc (n *%sNum) Twice() %sNum {\n\treturn *n * 2\n}\n\nfunc %sjoin(a %sStr, b string) %sStr {\n\treturn a + %sStr(b)\n}'
+                              % (P, bt, P, P, P, p, P, P, P)))
+            st.append(S(['%sn := %sNum({0})' % (u, P), '%sn += %sNum({1})' % (u, P), '%sw := %sn.Twice()' % (u, u), '%ss := %sjoin("ab", {2})' % (u, p),
+                         'println("named", %s(%sn), %s(%sw), string(%ss), len(%ss), %sn < %sw)' % (bt, u, bt, u, u, u, u, u)], [T(), T(), self.leaf(env, 'string', True)]))
+        elif k == 'recursive_closure':
+            st.append(S(['var %sf func(n int32, a %s) %s' % (u, t, t), '%sf = func(n int32, a %s) %s {' % (u, t, t), '\tif n <= 0 {', '\t\treturn a', '\t}',
+                         '\treturn %sf(n-1, a*%s(3)+%s(n))' % (u, t, t), '}', 'println("recclosure", %sf(%d, {0}))' % (u, self.rng.randint(0, 12))], [T()]))
+        elif k == 'variadic_spread':
+            grp.decls.append((P + 'VS', 'func %svs(base %s, xs ...%s) (%s, int) {\n\tfor _, x := range xs {\n\t\tbase = base*%s(7) + x\n\t}\n\tif len(xs) > 0 {\n\t\txs[0] = base\n\t}\n\treturn base, len(xs)\n}'
+                              % (p, t, t, t, t)))
+            st.append(S(['%ss := []%s{{0}, {1}, {2}}' % (u, t), '%sa, %sn := %svs({0}, %ss...)' % (u, u, p, u), '%sb, %sm := %svs({1})' % (u, u, p), '%sc, %sk := %svs({2}, {0}, {1})' % (u, u, p),
+                         'println("variadic", %sa, %sn, %sb, %sm, %sc, %sk, %ss[0])' % (u, u, u, u, u, u, u)], [T(), T(), T()]))
+        elif k == 'call_forwarding':
+            grp.decls.append((P + 'CF', 'func %stwo(a %s) (%s, %s) {\n\treturn a + %s(1), a * %s(2)\n}\n\nfunc %ssum(a, b %s) %s {\n\treturn a - b\n}' % (p, t, t, t, t, t, p, t, t)))
+            st.append(S('println("forward", %ssum(%stwo({0})))' % (p, p), [T()]))
+        elif k == 'shortcircuit_calls':
+            grp.decls.append((P + 'SC', 'func %ssay(tag string, v bool) bool {\n\tprintln("say", tag, v)\n\treturn v\n}' % p))
+            st.append(S(['%sr := %ssay("a", {0}) && %ssay("b", {1}) || %ssay("c", {2}) && !%ssay("d", {0})' % (u, p, p, p, p), 'println("shortcircuit", %sr)' % u],
+                        [self.expr(env, 'bool', 1), self.expr(env, 'bool', 1), self.expr(env, 'bool', 1)]))
+        elif k == 'shadowing':
+            st.append(S(['%s := {0}' % u, '{', '\t%s := %s + {1}' % (u, u), '\tif %s := %s * %s(2); %s > {2} {' % (u, u, t, u), '\t\tprintln("shadow-in", %s)' % u, '\t}',
+                         '\t%s++' % u, '\tprintln("shadow-mid", %s)' % u, '}', 'println("shadow-out", %s)' % u], [T(), T(), T()]))
+        elif k == 'ptr_escape':
+            grp.decls.append((P + 'PE', 'type %sCell struct {\n\tv %s\n\tnext *%sCell\n}\n\nfunc %snew(v %s) *%sCell {\n\tvar c %sCell\n\tc.v = v\n\treturn &c\n}\n\nfunc %slocal(v %s) *%s {\n\tx := v + %s(1)\n\treturn &x\n}'
+                              % (P, t, P, p, t, P, P, p, t, t, t)))
+            st.append(S(['%sa, %sb := %snew({0}), %snew({1})' % (u, u, p, p), '%sa.next = %sb' % (u, u), '%sb.v += {2}' % u, '%sp, %sq := %slocal({0}), %slocal({0})' % (u, u, p, p), '*%sp += {1}' % u,
+                         'println("escape", %sa.v, %sa.next.v, *%sp, *%sq, %sp == %sq, %sa.next == %sb, %sb.next == nil)' % (u, u, u, u, u, u, u, u, u)], [T(), T(), T()]))
+        elif k == 'swap_index':
+            st.append(S(['%s := []%s{{0}, {1}, {2}}' % (u, t), '%si, %sj := {3}, {4}' % (u, u), '%s[%si], %s[%sj] = %s[%sj], %s[%si]' % (u, u, u, u, u, u, u, u),
+                         '%si, %s[%sj] = %sj, %s(%si)' % (u, u, u, u, t, u), 'println("swap", %s[0], %s[1], %s[2], %si, %sj)' % (u, u, u, u, u)],
+                        [T(), T(), T(), self.index_of(env, None, 3), self.index_of(env, None, 3)]))
+        elif k == 'iota':
+            grp.decls.append((P + 'IO', 'const (\n\t%sA %s = iota + 1\n\t%sB\n\t%sC\n\t%sD = %sC << 2\n)\n\nconst (\n\t%sF0 uint32 = 1 << iota\n\t%sF1\n\t%sF2\n)' % (P, t, P, P, P, P, P, P, P)))
+            st.append(S('println("iota", %sA, %sB, %sC, %sD, %sF0|%sF2, {0} + %sC, {1} & (%sF1 | %sF2))' % (P, P, P, P, P, P, P, P, P), [self.nonconst(env, t, T()), self.nonconst(env, 'uint32', self.expr(env, 'uint32', 1))]))
+        elif k == 'untyped_const':
+            grp.decls.append((P + 'UC', 'const %sBig = 1 << 40\n\nconst %sRatio = 2.5\n\nconst %sName = "c" + "d"' % (P, P, P)))
+            st.append(S('println("untyped", int64(%sBig>>20) + {0}, uint64(%sBig) * 3, {1} * %sRatio > 10, int32(%sBig >> 38), len(%sName), %sName + {2})' % (P, P, P, P, P, P),
+                        [self.nonconst(env, 'int64', self.expr(env, 'int64', 1)), self.nonconst(env, 'float64', self.expr(env, 'float64', 1)), self.leaf(env, 'string', True)]))
+        elif k == 'anon_struct':
+            st.append(S(['%s := struct {' % u, '\ta %s' % t, '\tb string', '}{{0}, "anon"}', '%sc := %s' % (u, u), '%sc.a += {1}' % u, '%sp := &%s' % (u, u), '%sp.b += "!"' % u,
+                         'println("anon", %s.a, %s.b, %sc.a, %sc.b, %s == %sc)' % (u, u, u, u, u, u)], [T(), T()]))
+        elif k == 'embedded_ptr':
+            grp.decls.append((P + 'EP', 'type %sBase struct {\n\tv %s\n}\n\nfunc (b *%sBase) Inc(d %s) {\n\tb.v += d\n}\n\ntype %sWrap struct {\n\t*%sBase\n\tw %s\n}' % (P, t, P, t, P, P, t)))
+            st.append(S(['%sb := &%sBase{{0}}' % (u, P), '%sx := %sWrap{%sb, {1}}' % (u, P, u), '%sy := %sx' % (u, u), '%sx.Inc({2})' % u, '%sy.v += {1}' % u, '%sy.w++' % u,
+                         'println("embptr", %sb.v, %sx.v, %sy.v, %sx.w, %sy.w, %sx.%sBase == %sy.%sBase)' % (u, u, u, u, u, u, P, u, P)], [T(), T(), T()]))
+        elif k == 'assert_fail_zero':
+            st.append(S(['var %se interface{} = {0}' % u, '%sa, %sok1 := %se.(%s)' % (u, u, u, t), '%sb, %sok2 := %se.(float64)' % (u, u, u), '%sc, %sok3 := %se.(bool)' % (u, u, u),
+                         # (a failed `v, ok := e.(string)` yields the string "0" in Wa: see FINDINGS; not used here)
+                         'println("assertzero", %sa, %sok1, %sb == 0, %sok2, %sc, %sok3)' % (u, u, u, u, u, u)], [self.nonconst(env, t, T())]))
+        elif k == 'copy_string_bytes':
+            st.append(S(['%sb := make([]byte, 4)' % u, '%sn := copy(%sb, {0})' % (u, u), '%sm := copy(%sb[1:], "zz")' % (u, u), 'println("copystr", %sn, %sm, %sb[0], %sb[1], %sb[3], hashStr(string(%sb)))' % (u, u, u, u, u, u)],
+                        [self.leaf(env, 'string', True)]))
+        elif k == 'string_build_runes':
+            st.append(S(['%ss := ""' % u, 'for _, r := range {0} {', '\tif r > 127 {', '\t\t%ss += "?"' % u, '\t} else {', '\t\t%ss = string(r) + %ss' % (u, u), '\t}', '}',
+                         'println("build", %ss, len(%ss))' % (u, u)], [self.leaf(env, 'string', True)]))
+        elif k == 'ptr_to_ptr':
+            st.append(S(['%sv := {0}' % u, '%sp := &%sv' % (u, u), '%spp := &%sp' % (u, u), '**%spp += {1}' % u, '%sw := {2}' % u, '*%spp = &%sw' % (u, u), '*%sp += %s(1)' % (u, t),
+                         'println("ptrptr", %sv, %sw, **%spp, %sp == &%sw)' % (u, u, u, u, u)], [self.nonconst(env, t, T()), T(), self.nonconst(env, t, T())]))
+        elif k == 'array_of_struct_range':
+            grp.decls.append((P + 'AS', 'type %sIt struct {\n\tv %s\n\tn string\n}' % (P, t)))
+            st.append(S(['%s := [3]%sIt{{v: {0}, n: "a"}, {v: {1}, n: "b"}, {v: {2}, n: "c"}}' % (u, P),
+                         'for _, it := range %s {' % u, '\tit.v += %s(100)' % t, '}', 'for i := range %s {' % u, '\t%s[i].v += %s(i)' % (u, t), '\t%s[i].n += "x"' % u, '}',
+                         '%sp := &%s[1]' % (u, u), '%sp.v *= %s(2)' % (u, t), 'println("arrstruct", %s[0].v, %s[1].v, %s[2].v, %s[1].n, %sp.n)' % (u, u, u, u, u)], [T(), T(), T()]))
+        elif k == 'multi_case_typeswitch':
+            st.append(S(['%svals := []interface{}{{0}, {1}, "s", {2}, nil}' % u, 'for i, e := range %svals {' % u, '\tswitch x := e.(type) {', '\tcase %s, %s:' % tuple(self.rng.sample(INT_NAMES, 2)),
+                         '\t\tprintln("ints", i, x != nil)', '\tcase string, bool:', '\t\tprintln("strbool", i, x != nil)', '\tcase nil:', '\t\tprintln("nil", i, x == nil)', '\tdefault:', '\t\tprintln("other", i)', '\t}', '}'],
+                        [self.nonconst(env, 'uint8', self.expr(env, 'uint8', 1)), self.nonconst(env, 'int64', self.expr(env, 'int64', 1)), self.nonconst(env, 'bool', self.expr(env, 'bool', 1))]))
+        elif k == 'closure_over_field':
+            grp.decls.append((P + 'CO', 'type %sCalls [3]int32\n\ntype %sAcc struct {\n\ttot %s\n\tcalls %sCalls\n}' % (P, P, t, P)))
+            st.append(S(['var %sa %sAcc' % (u, P), '%sadd := func(i int, d %s) {' % (u, t), '\t%sa.tot += d' % u, '\t%sa.calls[i]++' % u, '}', '%sadd(0, {0})' % u, '%sadd({3}, {1})' % u, '%sb := %sa' % (u, u), '%sadd(2, {2})' % u,
+                         'println("closurefield", %sa.tot, %sb.tot, %sa.calls[0], %sa.calls[1], %sa.calls[2], %sb.calls[2])' % (u, u, u, u, u, u)], [T(), T(), T(), self.index_of(env, None, 3)]))
+        elif k == 'linked_list':
+            grp.decls.append((P + 'LL', 'type %sNode struct {\n\tv %s\n\tnext *%sNode\n}\n\nfunc %spush(h *%sNode, v %s) *%sNode {\n\treturn &%sNode{v, h}\n}\n\nfunc %srev(h *%sNode) *%sNode {\n\tvar r *%sNode\n\tfor h != nil {\n\t\tn := h.next\n\t\th.next = r\n\t\tr = h\n\t\th = n\n\t}\n\treturn r\n}'
+                              % (P, t, P, p, P, t, P, P, p, P, P, P)))
+            nn = self.rng.randint(1, 8)
+            st.append(S(['var %sh *%sNode' % (u, P), 'for i := 0; i < %d; i++ {' % nn, '\t%sh = %spush(%sh, %s(i)*{0} + {1})' % (u, p, u, t), '}', '%sh = %srev(%sh)' % (u, p, u), 'var %sacc %s' % (u, t), '%scnt := 0' % u,
+                         'for n := %sh; n != nil; n = n.next {' % u, '\t%sacc = %sacc*%s(5) + n.v' % (u, u, t), '\t%scnt++' % u, '}', 'println("list", %scnt, %sacc, %sh.v)' % (u, u, u)], [self.nonconst(env, t, T()), T()]))
+        elif k == 'matrix_slices':
+            r, c = self.rng.randint(1, 4), self.rng.randint(1, 4)
+            st.append(S(['%sm := make([][]%s, %d)' % (u, t, r), 'for i := range %sm {' % u, '\t%sm[i] = make([]%s, %d)' % (u, t, c), '\tfor j := range %sm[i] {' % u, '\t\t%sm[i][j] = %s(i*%d+j) ^ {0}' % (u, t, c), '\t}', '}',
+                         '%srow := %sm[%d]' % (u, u, r - 1), '%srow[0] += {1}' % u, 'var %sacc %s' % (u, t), 'for _, rw := range %sm {' % u, '\tfor j, v := range rw {', '\t\t%sacc += v * %s(j+1)' % (u, t), '\t}', '}',
+                         'println("matrix", %sacc, %sm[%d][0], len(%sm), len(%sm[0]))' % (u, u, r - 1, u, u)], [self.nonconst(env, t, T()), T()]))
+        elif k == 'bytes_compare':
+            st.append(S(['%sa, %sb := []byte({0}), []byte({1})' % (u, u), '%seq := len(%sa) == len(%sb)' % (u, u, u), 'for i := 0; %seq && i < len(%sa); i++ {' % (u, u), '\tif %sa[i] != %sb[i] {' % (u, u), '\t\t%seq = false' % u, '\t}', '}',
+                         'println("byteseq", %seq, string(%sa) == string(%sb), {0} == {1})' % (u, u, u)], [self.leaf(env, 'string', True), self.leaf(env, 'string', True)]))
+        else:
+            raise ValueError(name)
+    st.append(S('%s ^= {0}' % pool_t, [T()]))
+
+
+Gen.g_idioms = _g_idioms
+KINDS['idioms'] = ('g_idioms', 2.5, IDIOM_FEATURES)
